@@ -182,7 +182,7 @@ def rule_e(repo, chk):
     chk.ob('C03.e', ok, f, 'from_context climbs parent_context while it is a class or instance')
     cr = repo.find('jedi.inference.value.function', 'FunctionValue.from_context.create')
     ctors = [c for c in calls_in(cr) if call_name(c) in ('MethodValue', 'cls')]
-    chk.floor('C03.e', len(ctors), 2, '(value constructions in from_context.create)')
+    chk.floor('C03.e', len(ctors), 1, '(value constructions in from_context.create)')
     for c in ctors:
         chk.ob('C03.e', norm(kwarg(c, 'parent_context')) == 'parent_context', c, '`%s` receives the climbed parent_context (not the class context)' % short(c, 40),
                'parent_context=%s' % short(kwarg(c, 'parent_context')))
